@@ -88,8 +88,8 @@ CHECKS["C24"] = ("model_checking",
     "Trusted: requestor Association with the transport cut at dul.send_pdu; dimse_timeout 0.05 s; Deflated transfer syntax for undecodable identifiers.", "§6 C24", "scu")
 
 CHECKS["C13"] = ("model_checking",
-    "TLA+ Policy spec (AE titles as significant core plus padding; calling list, called-title switch, identity verdicts) model-checked by TLC; every case TLC enumerates is sent as raw A-ASSOCIATE-RQ bytes to a real acceptor AE on loopback, followed by a C-ECHO request whatever the answer (S2C); outcome, reject source/reason and handler calls judged by the Trace_Policy spec (C2S)",
-    "7 calling-title variants (padding left/right, case, embedded space) x 5 required-calling lists x 4 called titles x 2 own titles x require_called x identity in {absent, handler unbound, true, false, raises}: established only if allowed, rejected otherwise with calling/called-AE-title-not-recognised codes, no DIMSE handler call on a rejected connection.",
+    "TLA+ Policy spec (AE titles as significant core plus padding; calling list, called-title switch, identity verdicts) model-checked by TLC; every case TLC enumerates is sent as raw A-ASSOCIATE-RQ bytes to a real acceptor AE on loopback, followed by a C-ECHO request whatever the answer (S2C); outcome, reject source/reason and handler calls judged by the Trace_Policy spec (C2S); Handlers spec (binding rules of every handler slot of a server and its associations) model-checked and its simulated bind/unbind/open/close/echo histories replayed on a real server, judged step by step by Trace_Handlers",
+    "7 calling-title variants (padding left/right, case, embedded space) x 5 required-calling lists x 4 called titles x 2 own titles x require_called x identity in {absent, handler unbound, true, false, falsy, raises}, plus every history of up to two bind/unbind calls on the running server's EVT_USER_ID slot for every verdict: established only if allowed, rejected otherwise with calling/called-AE-title-not-recognised codes, no DIMSE handler call on a rejected connection.",
     "Trusted: raw requestor built from pynetdicom's PDU classes (checked by C01); wrongly *rejecting* an allowed request is outside the property and not judged.", "§6 C13", "policy")
 CHECKS["C23"] = ("model_checking",
     "TLA+ Cancel spec (two consecutive operations, cancels naming either or an unrelated id at any moment, polls at yields) model-checked by TLC; TLC's behaviours replayed on the real C-FIND/C-GET/C-MOVE SCPs with requests and C-CANCELs entering through the real DIMSE provider (S2C); the event log with observed poll results validated by the Trace_Cancel spec, which replays it through Cancel's actions (C2S trace validation)",
